@@ -18,6 +18,9 @@ static inline symbol_t SymbolString_dataAt(const SymbolString* self, size_t inde
 struct Message { vsym m_id; _Bool m_isWrite, m_isPassive; symbol_t m_srcAddress, m_dstAddress; _Bool available; };
 struct MessageMap { size_t m_maxIdLength, m_maxBroadcastIdLength; struct Message* m_scanMessage; int m_messagesByKey; };
 static inline size_t Message_getIdLength(const struct Message* m) { return m->m_id.n - 2; }
+static inline symbol_t Message_getDstAddress(const struct Message* m) { return m->m_dstAddress; }
+struct MessageMap; struct Message* g_stored_msg; uint64_t g_stored_key; unsigned g_store_calls;
+static inline void env_store_by_key(struct MessageMap* mm, uint64_t key, struct Message* m) { g_stored_msg = m; g_stored_key = key; g_store_calls = g_store_calls + 1; }
 typedef uint64_t mmap_it;
 static inline mmap_it mmap_find(const int* map, uint64_t key) { return key; }
 
@@ -134,4 +137,18 @@ void h_find(void) {
     CANARY("tracked definition matches");
   }
   if (g_probes > 20) { CANARY("many probes"); }
+}
+
+/* the invariant find() relies on is established and preserved by MessageMap::add: after adding a definition the longest id length (per destination
+   class) covers it, and still covers every definition added before */
+#define COVERED(mm, d) ((d)->m_id.n - 2 <= (mm)->m_maxIdLength && ((d)->m_dstAddress != 0xFE || (d)->m_id.n - 2 <= (mm)->m_maxBroadcastIdLength))
+void h_add_bookkeeping(void) {
+  struct MessageMap mm = nondet_MM(); struct Message old = nondet_Message(), m = nondet_Message(); uint64_t key = nondet_ulong(); g_store_calls = 0;
+  __CPROVER_assume(DEF_OK(&old) && DEF_OK(&m) && mm.m_maxIdLength <= 7 && mm.m_maxBroadcastIdLength <= mm.m_maxIdLength && COVERED(&mm, &old));
+  result_t r = MM_add_tail(&mm, &m, key);
+  __CPROVER_assert(r == RESULT_OK && g_store_calls == 1 && g_stored_msg == &m && g_stored_key == key, "[C08] the definition is stored under the key it was added with");
+  __CPROVER_assert(COVERED(&mm, &m), "[C08] the longest id length (overall and for broadcast definitions) covers the added definition: find() probes it whatever was added before");
+  __CPROVER_assert(COVERED(&mm, &old), "[C08] ... and still covers every definition added before");
+  __CPROVER_assert(mm.m_maxBroadcastIdLength <= mm.m_maxIdLength && mm.m_maxIdLength <= 7, "[C08] the bookkeeping stays within the id length range");
+  if (m.m_dstAddress == 0xFE && m.m_id.n - 2 == 3 && old.m_id.n - 2 == 5) { CANARY("broadcast definition after a longer one"); }
 }
